@@ -84,6 +84,9 @@ func c07List(tier string) []c07Case {
 	for k := 0; k < tierN(tier, 4, 24); k++ {
 		out = append(out, c07Case{c07Scn{"websocket-send-half-written", "bidi", 1, 0, 0}, []string{"cancel", "deadline"}[k%2], 0, []int{4, 16, 2}[k%3], "none"})
 	}
+	for k := 0; k < tierN(tier, 2, 12); k++ {
+		out = append(out, c07Case{c07Scn{"http-send-in-flight", "bidi", 1, 0, 0}, []string{"cancel", "deadline"}[k%2], 0, []int{4, 16}[k%2], "none"})
+	}
 	return out
 }
 
@@ -128,6 +131,10 @@ func c07Progs(sc c07Scn) (cops, hops []Op) {
 func c07Run(tier string, seed int64, idx int) *core.Result {
 	c := c07List(tier)[idx]
 	res := &core.Result{Verdict: core.Held, Sample: c, Sig: fmt.Sprintf("%+v/%d", c, idx)}
+	if c.Scn.Name == "http-send-in-flight" {
+		c07HTTPCancel(tier, seed, idx, c, res)
+		return res
+	}
 	if c.Scn.Name == "websocket-send-half-written" {
 		c07WSCancel(tier, seed, idx, c, res)
 		return res
@@ -352,15 +359,15 @@ func c07Run(tier string, seed int64, idx int) *core.Result {
 
 func init() {
 	core.Register(&core.Prop{
-		ID:    "C07",
-		Level: "fault_enumeration",
-		Rule:  "scenarios = 7 program pairs over the 3 streaming kinds (ping-pong, send-all, burst, handler waiting after half-close / after k messages, 0..5 responses queued unread) x {alone, 2 other calls active (thorough; two quick scenarios)}; the cancellation (explicit cancel or manual deadline expiry) is placed after EVERY prefix of the wire trace (tap callback on the n-th delivered envelope, n = 0..trace length). Checked at final states: every pending and later operation returned, later RecvMsg gives Canceled/DeadlineExceeded (or io.EOF only if the stream's trailer is on the wire), later sends fail, exactly one reset went out unless the trailer had been delivered, the handler is not left running with a live context, a probe call succeeds. Non-trivial = the cancellation landed while the stream was open; distinct = (scenario, how, position, plan).",
-		Plan:  func(tier string, seed int64) int { return len(c07List(tier)) },
-		Run:   c07Run,
+		ID:         "C07",
+		Level:      "fault_enumeration",
+		Rule:       "scenarios = 7 program pairs over the 3 streaming kinds (ping-pong, send-all, burst, handler waiting after half-close / after k messages, 0..5 responses queued unread) x {alone, 2 other calls active (thorough; two quick scenarios)}; the cancellation (explicit cancel or manual deadline expiry) is placed after EVERY prefix of the wire trace (tap callback on the n-th delivered envelope, n = 0..trace length). Checked at final states: every pending and later operation returned, later RecvMsg gives Canceled/DeadlineExceeded (or io.EOF only if the stream's trailer is on the wire), later sends fail, exactly one reset went out unless the trailer had been delivered, the handler is not left running with a live context, a probe call succeeds. Non-trivial = the cancellation landed while the stream was open; distinct = (scenario, how, position, plan).",
+		Plan:       func(tier string, seed int64) int { return len(c07List(tier)) },
+		Run:        c07Run,
 		Exhaustive: func(string) bool { return true },
 		RequiredStats: func(string) []string {
-			return []string{"cancellations_checked", "resets_observed", "handler_contexts_checked", "stream_completed_or_failed_at_open", "ws_cancel_mid_write_cases"}
+			return []string{"cancellations_checked", "resets_observed", "handler_contexts_checked", "stream_completed_or_failed_at_open", "ws_cancel_mid_write_cases", "http_cancel_during_send_cases"}
 		},
-		Assumptions: []string{"exhaustive = every cancel position of every scenario's wire trace; schedules between positions are sampled"},
+		Assumptions: []string{"HTTP family: no final-state argument over net/http; 20 s on loopback without the reset arriving is taken as never", "exhaustive = every cancel position of every scenario's wire trace; schedules between positions are sampled"},
 	})
 }
